@@ -418,6 +418,21 @@ def body_reuse(case, ctx):
     dt = H.dist_klein(Kcur, KQb)
     ctx.small("image: distances are preserved", (dR - dt) / (20 * dist_tol(Kcur, KQb, dt)), 1.0)
     _reads_agree(ctx, P, Kcur, Q, KQ, "the original after being transformed")
+    # coordinates handed out earlier stay what they were when other models are read later
+    Ph = _build(K1, s1)
+    h_first = Ph.coords("hyperboloid")
+    h_keep = np.array(h_first, copy=True)
+    p_first = Ph.coords("projective")
+    p_keep = np.array(p_first, copy=True)
+    for m_ in ("klein", "poincare", "halfspace"):
+        Ph.coords(m_)
+    ctx.close("hyperboloid coordinates read before the other models are still unit vectors",
+              -np.asarray(h_first)[..., 0] ** 2 + np.sum(np.asarray(h_first)[..., 1:] ** 2,
+                                                          axis=-1),
+              -np.ones(shape), rtol=0, atol=1e-9 * (1 + np.max(np.abs(h_keep), initial=0)) ** 2)
+    ctx.small("projective coordinates read earlier still name the same points",
+              np.abs(np.asarray(p_first)[..., 1:] / np.asarray(p_first)[..., :1]
+                     - p_keep[..., 1:] / p_keep[..., :1]), 1e-12)
     # the module-level factory: Klein coordinates unless a model is named
     GP = hyperbolic.get_point(K1.copy())
     ctx.close("get_point(coords) reads Klein coordinates", np.array(GP.coords("klein")), K1,
@@ -507,7 +522,60 @@ def body_helpers(case, ctx):
                   float(dist_tol(np.zeros(n), e, abs(r))) + 1e-9 * math.cosh(r) ** 2 * abs(r))
 
 
+# ---------------------------------------------------------------------------
+# points far from the origin, given in the models in which they are still ordinary numbers
+@st.composite
+def far_case(draw):
+    n = draw(st.integers(2, 4))
+    return dict(n=n, r=draw(st.sampled_from([0.9999, 0.99995, 0.9997])),
+                d=draw(gen.directions(n)), h=draw(st.sampled_from([7e-5, 3e-5, 2e-4])),
+                x=[draw(fl(-3.0, 3.0)) for _ in range(n - 1)],
+                ix=[draw(st.sampled_from([500.0, -2000.0, 300.0, 1200.0, 0.0]))
+                    for _ in range(n - 1)])
+
+
+def body_far(case, ctx):
+    """a point 8 to 10 away from the origin has Poincare radius 0.9997 .. 0.99995 and
+    half-space height 1e-4: perfectly ordinary numbers, read back as they were given (the Klein
+    chart in between is within 1e-8 of the sphere there); ideal points of the half-space
+    model with boundary coordinates in the hundreds are ideal points like any others"""
+    n, r = case["n"], case["r"]
+    ctx.label("n=%d" % n, "r=%g" % r, "not-origin", "n>=2-or-composite")
+    pc = r * np.array(case["d"], dtype=float)
+    P = hyperbolic.Point(pc.copy(), model="poincare")
+    ctx.close("far point: Poincare coordinates read back", np.array(P.coords("poincare")), pc,
+              rtol=0, atol=1e-9)
+    d0 = float(np.asarray(P.distance(hyperbolic.Point.get_origin(n))))
+    ctx.close("far point: distance from the origin is 2 artanh r", d0, 2 * math.atanh(r),
+              rtol=1e-6, atol=0)
+    hp = np.array(case["x"] + [case["h"]], dtype=float)
+    Q = hyperbolic.Point(hp.copy(), model="halfspace")
+    back = np.array(Q.coords("halfspace"))
+    ctx.close("far point: half-space coordinates read back (boundary part)", back[:-1], hp[:-1],
+              rtol=0, atol=1e-6 + 1e-15 * ((1.0 + float(hp @ hp)) / hp[-1]) ** 2 * hp[-1])
+    # (the library goes through the Klein chart, where this point is at
+    # 1 - |k|^2 ~ (h / (1 + |x|^2))^2 from the sphere: the rounding of the chart is amplified
+    # by the inverse of that)
+    amp_h = ((1.0 + float(hp @ hp)) / hp[-1]) ** 2
+    ctx.close("far point: half-space height read back", back[-1], hp[-1],
+              rtol=min(0.1, 1e-5 + 2e-14 * amp_h), atol=0)
+    kq = np.array(Q.coords("klein"))
+    ctx.check(float(kq @ kq) < 1.0, "far point: interior in the Klein model", k=kq)
+    if any(case["ix"]):
+        ib = np.array(case["ix"] + [0.0], dtype=float)
+        Iq = hyperbolic.IdealPoint(ib.copy(), model="halfspace")
+        bi = np.array(Iq.coords("halfspace"), dtype=float)
+        ctx.check(np.all(np.isfinite(bi)), "ideal point with large boundary coordinates: finite "
+                  "half-space coordinates", got=bi, given=ib)
+        ctx.close("ideal point with large boundary coordinates: read back", bi[:-1], ib[:-1],
+                  rtol=1e-6, atol=1e-6)
+        ctx.small("... and of height ~ 0 (sqrt of the rounding of a point on the sphere)",
+                  bi[-1] / (1.0 + float(ib @ ib)), 1e-6)
+
+
 LAWS = [
+    Law("far_points_in_their_own_model", far_case(), body_far, lambda l: True, quick=120,
+        thorough=600, shards=(1, 2)),
     Law("reused_point_objects", reuse_case(), body_reuse, nt_cloud, quick=200, thorough=2000,
         shards=(1, 4)),
     Law("module_level_helpers", helper_case(), body_helpers, nt_cloud, quick=200, thorough=1500,
